@@ -52,6 +52,7 @@ type c10Env struct {
 	sessions map[*yamux.Session]*c10Sess
 	sessList []*c10Sess
 	accepts  chan int // outcome tokens for connection attempts: 0 ok, 1 error
+	dialTimeout chan struct{}
 	lisClosed chan struct{}
 	lisClosedFlag bool
 	sessionOutcome int // next yamux set-up: 0 ok, 1 error
@@ -92,7 +93,13 @@ func verifStub_netListen(network, address string) (net.Listener, error) { return
 
 func verifStub_DialTimeout(network, address string, timeout time.Duration) (net.Conn, error) {
 	c10.attempts++
-	out := <-c10.accepts
+	var out int
+	select {
+	case out = <-c10.accepts:
+	case <-c10.dialTimeout: // the 5s dial timeout fires (modelled at shutdown only)
+		c10.attempts--
+		return nil, errors.New("dial timeout")
+	}
 	c10.attempts--
 	if out != 0 {
 		return nil, errors.New("dial failed")
@@ -185,9 +192,10 @@ func verifHarness_C10_pool() {
 	n := verifChoose("pool-size", verifParam("maxpool", 2)) + 1
 	role := verifChoose("role", 2) // 0 receiver, 1 establisher
 	maxAttempts := verifParam("attempts", 4)
-	c10 = &c10Env{sessions: map[*yamux.Session]*c10Sess{}, accepts: make(chan int), lisClosed: make(chan struct{})}
+	c10 = &c10Env{sessions: map[*yamux.Session]*c10Sess{}, accepts: make(chan int), lisClosed: make(chan struct{}), dialTimeout: make(chan struct{})}
 	ctx, cancel := context.WithCancel(context.Background())
 	var listUpdates int
+	var lastList []string
 	builder := func(cb AddNewMux, lifetime context.Context) (MuxProvider, error) {
 		if role == 0 {
 			return NewMuxReceiverProvider(lifetime, "verif", cb, int64(n), config.TCPTLSInfo{ConnectionString: "x:1"}, []string{"l"}, log.NewNoopLogger())
@@ -195,7 +203,13 @@ func verifHarness_C10_pool() {
 		return NewMuxEstablisherProvider(lifetime, "verif", cb, int64(n), config.TCPTLSInfo{ConnectionString: "x:1"}, []string{"l"}, log.NewNoopLogger())
 	}
 	mgrI, err := NewCustomMultiMuxManager(ctx, "verif", builder, nil,
-		[]OnConnectionListUpdate{func(m map[string]session.ManagedMuxSession) { listUpdates++ }}, log.NewNoopLogger())
+		[]OnConnectionListUpdate{func(m map[string]session.ManagedMuxSession) {
+			listUpdates++
+			lastList = nil
+			for k := range m {
+				lastList = append(lastList, k)
+			}
+		}}, log.NewNoopLogger())
 	verifAssert(err == nil, "manager-built")
 	if err != nil {
 		return
@@ -256,12 +270,20 @@ func verifHarness_C10_pool() {
 		case 3:
 			verifAction("shutdown")
 			cancel()
+			close(c10.dialTimeout)
 			cancelled = true
 		}
 		verifQuiesce()
 		verifQuiesce()
 		reg := len(mgr.GetMuxConnections())
 		verifAssert(reg <= n, "registered-sessions-never-exceed-the-configured-count")
+		// C11: the session-list listener always holds the manager's current table
+		cur := mgr.GetMuxConnections()
+		verifAssert(len(lastList) == len(cur), "listener-saw-the-current-session-table")
+		for _, k := range lastList {
+			_, ok := cur[k]
+			verifAssert(ok, "listener-saw-the-current-session-table")
+		}
 		verifAssert(c10.liveSessions() <= n, "live-sessions-never-exceed-the-configured-count")
 	}
 	if !cancelled {
@@ -278,6 +300,7 @@ func verifHarness_C10_pool() {
 		verifAssert(len(mgr.GetMuxConnections()) == n, "pool-returns-to-full-strength-while-peer-reachable")
 		verifAssert(c10.attempts == 0, "no-more-attempts-when-pool-is-full")
 		cancel()
+		close(c10.dialTimeout)
 		verifQuiesce()
 	}
 	verifQuiesce()
